@@ -74,6 +74,9 @@ func (e *Engine) intercept(fn *ssa.Function, args []Value) (Value, bool) {
 		e.stub(key)
 		e.sleeps = append(e.sleeps, args[0].(*Term))
 		e.tracef("sleep")
+		if e.sleepBudget >= 0 && len(e.sleeps) > e.sleepBudget {
+			e.abort("HORIZON", "sleep budget exhausted")
+		}
 		e.advanceClock(args[0].(*Term))
 		return nil, true
 	case "time.NewTicker":
@@ -447,6 +450,12 @@ func (e *Engine) intrinsic(name string, fn *ssa.Function, args []Value) (Value, 
 		return nil, true
 	case "vOnWait":
 		e.wgHook = args[0].(FuncV)
+		return nil, true
+	case "vSleepBudget":
+		e.sleepBudget = e.concreteInt(args[0].(*Term), "vSleepBudget")
+		return nil, true
+	case "vOnClose":
+		chanOf(args[0]).onClose = args[1].(FuncV)
 		return nil, true
 	case "vTickBudget":
 		e.path.ticksLeft = e.concreteInt(args[0].(*Term), "vTickBudget")
